@@ -27,6 +27,7 @@ var verifHostmapLogger = slog.New(slog.DiscardHandler)
 // fallback values (never an error: crypto/rand.Read aborts the process on a reader error). Every value
 // served is recorded, so the model is given exactly the stream the implementation consumed.
 type verifHMScriptedRand struct {
+	real     io.Reader // every read that is not generateIndex's 4-byte read (noise ephemeral keys) goes to the real source
 	script   []uint32
 	pos      int
 	fallback *uint32
@@ -34,27 +35,20 @@ type verifHMScriptedRand struct {
 }
 
 func (r *verifHMScriptedRand) Read(p []byte) (int, error) {
-	n := 0
-	for len(p)-n >= 4 {
-		var v uint32
-		if r.pos < len(r.script) {
-			v = r.script[r.pos]
-			r.pos++
-		} else {
-			*r.fallback++
-			v = 0x7f000000 + *r.fallback
-		}
-		r.served = append(r.served, v)
-		binary.BigEndian.PutUint32(p[n:], v)
-		n += 4
+	if len(p) != 4 {
+		return io.ReadFull(r.real, p)
 	}
-	if n == 0 && len(p) > 0 { // not used by generateIndex (always asks for 4 bytes)
-		for i := range p {
-			p[i] = 0xa5
-		}
-		n = len(p)
+	var v uint32
+	if r.pos < len(r.script) {
+		v = r.script[r.pos]
+		r.pos++
+	} else {
+		*r.fallback++
+		v = 0x7f000000 + *r.fallback
 	}
-	return n, nil
+	r.served = append(r.served, v)
+	binary.BigEndian.PutUint32(p, v)
+	return 4, nil
 }
 
 // VerifHM is one node's main hostmap + pending (handshake manager) hostmap.
@@ -68,6 +62,7 @@ type VerifHM struct {
 	order    []uint64
 	clock    uint64
 	fallback uint32
+	rx       *verifHMRx // set by VerifNewHMReal: real PKI, peers played with flynn/noise (verif_hostmap_rx.go)
 }
 
 const VerifHMUnknownID = 999999999
@@ -112,8 +107,8 @@ func VerifNewHM() *VerifHM {
 }
 
 func (v *VerifHM) withRand(script []uint32, fn func()) []uint32 {
-	r := &verifHMScriptedRand{script: script, fallback: &v.fallback}
 	old := crand.Reader
+	r := &verifHMScriptedRand{real: old, script: script, fallback: &v.fallback}
 	crand.Reader = io.Reader(r)
 	defer func() { crand.Reader = old }()
 	fn()
